@@ -275,10 +275,8 @@ ssize_t snoopy_util_file_writevNoSignal (int fd, struct iovec const * const iov,
 int snoopy_util_file_writeLineToCallerStream (FILE * const stream, char const * const line)
 {
     struct pollfd   streamPollFd;
-    sigset_t        shieldSet;
-    sigset_t        pendingBefore;
-    sigset_t        callerSigMask;
-    int             charCount;
+    struct iovec    lineIov[2];
+    ssize_t         charCount;
 
     // Is anybody (still) there, and is there room right now?
     streamPollFd.fd      = fileno(stream);
@@ -296,15 +294,14 @@ int snoopy_util_file_writeLineToCallerStream (FILE * const stream, char const * 
         return -1;
     }
 
-    // The reader may still vanish before we write - keep the resulting signal away from the calling program
-    snoopy_util_file_signalShield_enter(&shieldSet, &pendingBefore, &callerSigMask);
+    // Hand the line to the descriptor behind the stream, not to the stream: its buffer (with text the calling
+    // program has not flushed yet), its error indicator and its orientation are the program's, not ours.
+    // (The reader may still vanish before we write - writevNoSignal() keeps the resulting signal away from the program.)
+    lineIov[0].iov_base = (void *) line;
+    lineIov[0].iov_len  = strlen(line);
+    lineIov[1].iov_base = "\n";
+    lineIov[1].iov_len  = 1;
+    charCount = snoopy_util_file_writevNoSignal(streamPollFd.fd, lineIov, 2);
 
-    charCount = fprintf(stream, "%s\n", line);
-    if (0 != fflush(stream)) {
-        charCount = -1;
-    }
-
-    snoopy_util_file_signalShield_leave(&pendingBefore, &callerSigMask);
-
-    return charCount;
+    return (int) charCount;
 }
